@@ -81,7 +81,7 @@ def run_de(cfg, X, labels, reuse, P):
     a, b = np.zeros(d), np.ones(d)
     grid = G.GlobalTrapezoidalGrid(a=a, b=b, boundary=False)
     with contextlib.redirect_stdout(io.StringIO()):
-        op = DensityEstimation(X.copy(), d, grid=grid, masslumping=False, lambd=cfg["lambda"], classes=None if labels is None else labels.copy(),
+        op = DensityEstimation(X.copy(), d, grid=grid, masslumping=cfg.get("masslumping", False), lambd=cfg["lambda"], classes=None if labels is None else labels.copy(),
                                reuse_old_values=reuse, numeric_calculation=False, print_output=False, pre_scaled_data=True,
                                log_level=100, print_level=100)
         cls = hooks.observed(SpatiallyAdaptiveSingleDimensions2)
@@ -113,6 +113,9 @@ def run_twin(case, res, large=False):
     cfg = {"d": d, "lmin": lmin, "lmax": lmax, "steps": steps, "lambda": rng.choice([0.0, 1e-3, 0.1]), "margin": rng.choice([0.5, 0.9]),
            "rebalancing": rng.random() < 0.5, "version": rng.choice([6, 6, 2, 3]), "errseed": rng.randrange(2 ** 31), "labels": labels is not None,
            "M": len(X), "data": style, "max_grid_points": maxp, "large": large}
+    cfg["masslumping"] = rng.random() < 0.3       # the mass-lumped solve of the twins as well
+    if cfg["masslumping"]:
+        res.count("masslumped_twins")
     res.sample = {"config": cfg}
     P = [tuple(rng.random() for _ in range(d)) for _ in range(200)]
     c0, op0, o0 = run_de(cfg, X, labels, False, P)
@@ -221,14 +224,16 @@ def run_handover(case, res):
         X = np.vstack([X, np.random.RandomState(case["seed"] % 2 ** 31).rand(60, d)])
         labels = None if labels is None else np.concatenate([labels, np.random.RandomState(1 + case["seed"] % 2 ** 31).choice([-1.0, 1.0], 60)])
     lam = rng.choice([0.0, 1e-3, 0.1])
-    cfg = {"d": d, "sizes": [[len(x) for x in g[0]] for g in grids], "M": len(X), "data": style, "lambda": lam, "labels": labels is not None}
+    ml_handover = rng.random() < 0.3
+    cfg = {"d": d, "sizes": [[len(x) for x in g[0]] for g in grids], "M": len(X), "data": style, "lambda": lam, "labels": labels is not None,
+           "masslumping": ml_handover}
     res.sample = {"config": cfg}
     a, b = np.zeros(d), np.ones(d)
     ops = []
     for reuse in (False, True):
         grid = G.GlobalTrapezoidalGrid(a=a, b=b, boundary=False)
         gs = G.GlobalTrapezoidalGrid(a=a, b=b, boundary=False)
-        op = make_op(X, labels, d, grid=grid, masslumping=False, lambd=lam, reuse_old_values=reuse)
+        op = make_op(X, labels, d, grid=grid, masslumping=ml_handover, lambd=lam, reuse_old_values=reuse)
         cont = Dummy()
         op.init_dimension_wise(grid, gs, cont, [1] * d, [16] * d, a, b, 6)
         ops.append((op, cont))
